@@ -60,6 +60,11 @@ class Report:
         self.ob(rule, '<inventory>', 'count:' + what, n == want,
                 '%s: counted %d, expected exactly %d' % (what, n, want))
 
+    def new_violations(self):
+        """failing obligations that are not listed known findings"""
+        known = load_known()
+        return [o for o in self.obligations if not o['ok'] and not (known.get(o['key']) or {}).get('status') == 'finding']
+
     # ---- finishing
     def finish(self, level='other', explanation='', extra_cov=None):
         known = load_known()
